@@ -170,7 +170,10 @@ def gen_sched_script(rs: int, knobs: Optional[dict] = None) -> dict:
                     sc["cronspec"] = sc.get("cron") is not None and (sc.get("offset") is not None or r.random() < 0.5) and not sc.get("invalid_cron")
                     if sc.get("cron") is not None and not sc["cronspec"]:
                         sc["offset"] = None
-                    ops.append({"op": "create", "source": si, "at_us": at, "sched": sc})
+                    cop = {"op": "create", "source": si, "at_us": at, "sched": sc}
+                    if r.random() < 0.25:
+                        cop["unschedule_after_us"] = r.choice([0, 1, 1_000_000, 30_000_000, 90_000_000])
+                    ops.append(cop)
                 else:
                     ops.append({"op": "add", "source": si, "at_us": at, "sched": sc})
             else:
